@@ -23,6 +23,7 @@ from .ctx import Mismatch
 from .machines import candidates, expected_group, initial_enter_expected, initial_state
 
 UNSET = object()
+ANY = object()  # outcome value that is not checked (e.g. a constructor's return)
 
 
 class Boom(Exception):
@@ -94,12 +95,11 @@ class Script:
         self.occ[key] = occ + 1
         label = f"{provider}.{name}@{info['event']}#{occ}"
         self.log.append(("cb", idx, provider, name, info))
-        act = None
-        if name not in self.guard_names:
-            act = self._decide_action(idx, provider, name, info, label)
+        act = self._decide_action(idx, provider, name, info, label, guard=name in self.guard_names)
         if act is not None and act[0] == "raise":
             self.log.append(("raise", idx))
             raise Boom(idx)
+        self._machine = machine
         return idx, label, act
 
     def _send_failed(self, idx, ev, e):
@@ -124,8 +124,9 @@ class Script:
             ev = act[1]
             self.log.append(("send", idx, ev))
             try:
-                ret = self.sm.send(ev)
-            except (Boom, self.sm.TransitionNotAllowed) as e:
+                sm = self._machine
+                ret = sm.send(ev)
+            except (Boom, sm.TransitionNotAllowed) as e:
                 self._send_failed(idx, ev, e)
                 raise
             if hasattr(ret, "__await__"):
@@ -147,10 +148,11 @@ class Script:
             ev = act[1]
             self.log.append(("send", idx, ev))
             try:
-                ret = self.sm.send(ev)
+                sm = self._machine
+                ret = sm.send(ev)
                 if hasattr(ret, "__await__"):
                     ret = await ret
-            except (Boom, self.sm.TransitionNotAllowed) as e:
+            except (Boom, sm.TransitionNotAllowed) as e:
                 self._send_failed(idx, ev, e)
                 raise
             self.log.append(("sent", idx, ev, ret))
@@ -158,7 +160,9 @@ class Script:
             await asyncio.sleep(0)
         return self._end(idx, name, label)
 
-    def _decide_action(self, idx, provider, name, info, label):
+    def _decide_action(self, idx, provider, name, info, label, guard=False):
+        if guard and "raise" not in self.actions:
+            return None
         if self.custom is not None:
             r = self.custom(self, idx, provider, name, info)
             if r is not NotImplemented:
@@ -168,7 +172,8 @@ class Script:
         opts = [None]
         for a in self.actions:
             if a == "send":
-                opts += [("send", e) for e in self.send_events]
+                if not guard:
+                    opts += [("send", e) for e in self.send_events]
             else:
                 opts.append(("raise",))
         d = opts[self.ctx.choose(len(opts), f"act:{label}")]
@@ -281,7 +286,7 @@ class Acceptor:
             exp = None if first is UNSET else first
             if outcome[0] != "ret":
                 raise Reject("unexpected-exception", f"expected return {exp!r}, observed {outcome!r}")
-            if not same_value(outcome[1], exp):
+            if outcome[1] is not ANY and not same_value(outcome[1], exp):
                 raise Reject("wrong-result", f"expected {exp!r}, observed {outcome[1]!r}")
         return self.cur
 
